@@ -30,7 +30,7 @@ EXPLANATION = (
     '(H^H H + s I) W_mmse = H^H, W_mmse(s=0) H = I, and that Blast selects MMSE exactly when noise_var > 0. Alamouti and '
     'MRT (elementwise code) are not interpreted. Not decided: whether util.misc.gmd honours the GMD contract, '
     'floating-point error, conditioning.'
-    ' General rules also applied here (see DESIGN 10.5): validate-before-commit (no `raise` reachable after the object was already changed in a public mutator); input immutability (no in-place modification of an array argument, alias- and view-aware).')
+    ' General rules also applied here (see DESIGN 10.5): validate-before-commit (no `raise` reachable after the object was already changed in a public mutator); input immutability (no in-place modification of an array argument, alias- and view-aware). C04.h: the effective singular-value tolerance of every gmd call of the library is 0 (scale invariance).')
 
 SCHEMES = [  # class, channel shape, data size, expected encode shape, received shape
     ('Blast', ('Nr', 'Nt')), ('MRC', ('Nr', 'Nt')), ('SVDMimo', ('Nr', 'Nt')), ('GMDMimo', ('Nr', 'Nt')),
@@ -341,6 +341,10 @@ def synthetic():
 
 
 MUTANTS = [
+    Mutant('gmd-absolute-tolerance-default', 'pyphysim/util/misc.py', 'gmd',
+           [('replace', 'tol: float=0.0', 'tol: float=1e-06')], r'C04\.h:GMDMimo\._calc_(precoder|receive_filter):gmd-tolerance'),
+    Mutant('benign-gmd-tolerance-int-zero', 'pyphysim/util/misc.py', 'gmd',
+           [('replace', 'tol: float=0.0', 'tol: float=0')], None, benign=True),
     Mutant('alamouti-stores-before-check', MI, 'Alamouti.set_channel_matrix',
            [('regex', r'(        _, Nt = channel\.shape\n)', r'\1        super().set_channel_matrix(channel)\n')], r'C04\.e:Alamouti\.set_channel_matrix'),
     Mutant('blast-noise-var-stored-before-check', MI, 'Blast.set_noise_var',
